@@ -34,6 +34,8 @@ type cmdCase struct {
 	Topo []topoOp `json:"topo,omitempty"`
 	// every InlineEvery-th command is sent in inline form ("name arg arg\r\n") where its words allow it (0: never)
 	InlineEvery int `json:"inline_every,omitempty"`
+	// Extra: masters (by index) that get one more replica each than Replicas says: uneven layouts
+	Extra []int `json:"extra,omitempty"`
 }
 
 type topoOp struct {
@@ -56,13 +58,20 @@ type env struct {
 }
 
 func newEnv(masters, replicas, strategy int) (*env, *verdict) {
-	return newEnvT(masters, replicas, strategy, true)
+	return newEnvT(masters, replicas, strategy, true, nil)
 }
 
-func newEnvT(masters, replicas, strategy int, stable bool) (e *env, v *verdict) {
+// extra: indices of masters that get one more replica each (uneven layouts: a master without a replica next to one with two)
+func newEnvT(masters, replicas, strategy int, stable bool, extra []int) (e *env, v *verdict) {
 	w, err := sim.NewWorld(masters, replicas)
 	if err != nil {
 		return nil, nil
+	}
+	for _, m := range extra {
+		if _, err := w.AddNode(w.Masters()[m%masters]); err != nil {
+			w.Close()
+			return nil, nil
+		}
 	}
 	w.AssignEven(w.Masters())
 	restore := func() {}
@@ -321,6 +330,9 @@ func TestRandomCommands(t *testing.T) {
 		c := cmdCase{Masters: rapid.IntRange(1, 3).Draw(t, "masters"), Replicas: rapid.IntRange(0, 2).Draw(t, "replicas"), Strategy: rapid.IntRange(0, 2).Draw(t, "strategy")}
 		n := rapid.IntRange(1, 25).Draw(t, "n")
 		c.InlineEvery = rapid.SampledFrom([]int{0, 0, 1, 2, 3}).Draw(t, "inline")
+		if c.Masters >= 2 && rapid.Bool().Draw(t, "uneven") {
+			c.Extra = rapid.SliceOfN(rapid.IntRange(0, c.Masters-1), 1, 3).Draw(t, "extra")
+		}
 		if c.Masters >= 2 && c.Replicas >= 1 && rapid.IntRange(0, 2).Draw(t, "topo") == 0 {
 			for k, m := 0, rapid.IntRange(1, 2).Draw(t, "ntopo"); k < m; k++ {
 				c.Topo = append(c.Topo, topoOp{At: rapid.IntRange(0, n-1).Draw(t, "at"), Replica: rapid.IntRange(0, 5).Draw(t, "trep"), To: rapid.IntRange(0, 2).Draw(t, "tto"), Swap: rapid.Bool().Draw(t, "swap"), Failover: rapid.IntRange(0, 3).Draw(t, "failover") == 0})
@@ -360,7 +372,7 @@ func TestRandomCommands(t *testing.T) {
 }
 
 func runCase(c cmdCase) (bool, *verdict) {
-	e, v := newEnvT(c.Masters, c.Replicas, c.Strategy, len(c.Topo) == 0)
+	e, v := newEnvT(c.Masters, c.Replicas, c.Strategy, len(c.Topo) == 0, c.Extra)
 	if v != nil {
 		return false, v
 	}
@@ -442,7 +454,7 @@ func runCase(c cmdCase) (bool, *verdict) {
 		if v != nil {
 			return nt, v
 		}
-		if inf.unsupportedReal || (c.Replicas > 0 && c.Strategy > 0 && ref.Supported(args[0])) {
+		if inf.unsupportedReal || ((c.Replicas > 0 || len(c.Extra) > 0) && c.Strategy > 0 && ref.Supported(args[0])) {
 			nt = true
 		}
 	}
